@@ -180,6 +180,9 @@ func (ex *Exec) callReflect(st *State, f *ssa.Function, args []Value) Value {
 		case "MapOf":
 			k := args[0].(IfaceV).V.(RTypeV).T
 			v := args[1].(IfaceV).V.(RTypeV).T
+			if !types.Comparable(k) {
+				ex.reflPanic(st, "reflect.MapOf: invalid key type "+k.String())
+			}
 			return rtypeIface(types.NewMap(k, v))
 		case "PtrTo", "PointerTo":
 			t := args[0].(IfaceV).V.(RTypeV).T
